@@ -84,12 +84,41 @@ pub fn directed(ctx: &WorkerCtx) -> Result<(), Fail> {
                 p.half = if ep.is_some() { 0 } else { half };
                 p.full = full;
                 let v = json!({"directed": "skeleton", "fen": p.fen()});
-                guarded(|| one(&p)).unwrap_or_else(Err).map_err(|d| fail(v, format!("C05 {d}")))?;
+                {
+            ctx.about_to_run(&v);
+            guarded(|| one(&p))
+        }
+        .unwrap_or_else(Err).map_err(|d| fail(v, format!("C05 {d}")))?;
                 st.eval(1);
                 st.nontrivial(digest(&p.fen()));
                 st.class("directed skeleton (rights subset x marker x clocks)");
             }
         }
+    }
+    // the standard placement is a special case worth its own family: rights are lost by moving
+    // pieces that can return home
+    for p in standard_placement_family() {
+        let v = json!({"directed": "skeleton", "fen": p.fen()});
+        {
+            ctx.about_to_run(&v);
+            guarded(|| one(&p))
+        }
+        .unwrap_or_else(Err).map_err(|d| fail(v, format!("C05 {d}")))?;
+        st.eval(1);
+        st.nontrivial(digest(&p.fen()));
+        st.class("directed: standard placement x rights subset x side to move x clocks");
+    }
+    // material extremes that are still reachable (nine queens, ten knights / bishops / rooks)
+    for p in crate::gen::material_extremes() {
+        let v = json!({"directed": "skeleton", "fen": p.fen()});
+        {
+            ctx.about_to_run(&v);
+            guarded(|| one(&p))
+        }
+        .unwrap_or_else(Err).map_err(|d| fail(v, format!("C05 {d}")))?;
+        st.eval(1);
+        st.nontrivial(digest(&p.fen()));
+        st.class("directed: reachable material extremes");
     }
     // longest texts: checkerboard-fragmented placements (32 men, every rank `1p1p1p1p`-like,
     // 71 bytes of placement) with rights and four-digit clocks: 85-88 byte FENs, which random
@@ -103,7 +132,11 @@ pub fn directed(ctx: &WorkerCtx) -> Result<(), Fail> {
         }
         let Some(p) = fragmented(&mut g) else { continue };
         let v = json!({"directed": "skeleton", "fen": p.fen()});
-        guarded(|| one(&p)).unwrap_or_else(Err).map_err(|d| fail(v, format!("C05 {d}")))?;
+        {
+            ctx.about_to_run(&v);
+            guarded(|| one(&p))
+        }
+        .unwrap_or_else(Err).map_err(|d| fail(v, format!("C05 {d}")))?;
         made += 1;
         st.eval(1);
         st.nontrivial(digest(&p.fen()));
@@ -115,7 +148,9 @@ pub fn directed(ctx: &WorkerCtx) -> Result<(), Fail> {
     Ok(())
 }
 
-/// a playable position on a checkerboard pattern of 32 occupied squares
+/// a playable position on a checkerboard pattern of 32 occupied squares whose material is
+/// reachable: per side the seven original officers plus eight men that are each a pawn or a
+/// promoted officer
 fn fragmented(g: &mut Expand) -> Option<Pos> {
     let parity = g.below(2) as u8;
     let occ: Vec<u8> = (0..64u8).filter(|s| (s % 8 + s / 8) % 2 == parity).collect();
@@ -123,60 +158,76 @@ fn fragmented(g: &mut Expand) -> Option<Pos> {
     // kings: with parity 0 a1/c1/e1/g1 and b8/d8/f8/h8 are occupied squares, with parity 1 the others
     let wk = if parity == 0 { 4u8 } else { [1u8, 3, 5, 7][g.below(4) as usize] };
     let bk = if parity == 1 { 60u8 } else { [57u8, 59, 61, 63][g.below(4) as usize] };
-    let mut colors: Vec<C> = (0..30).map(|i| if i < 15 { C::White } else { C::Black }).collect();
-    for i in (1..colors.len()).rev() {
+    p.sq[wk as usize] = Some((C::White, P::King));
+    p.sq[bk as usize] = Some((C::Black, P::King));
+    let mut rest: Vec<u8> = occ.iter().copied().filter(|s| *s != wk && *s != bk).collect();
+    for i in (1..rest.len()).rev() {
         let j = g.below(i as u64 + 1) as usize;
-        colors.swap(i, j);
+        rest.swap(i, j);
     }
-    let mut ci = 0;
-    let mut pawns = [0u8; 2];
-    for &s in &occ {
-        if s == wk {
-            p.sq[s as usize] = Some((C::White, P::King));
-            continue;
-        }
-        if s == bk {
-            p.sq[s as usize] = Some((C::Black, P::King));
-            continue;
-        }
-        let c = colors[ci];
-        ci += 1;
-        let back = s / 8 == 0 || s / 8 == 7;
-        let k = match g.below(6) {
-            0 | 1 | 2 if !back && pawns[c as usize] < 8 => {
-                pawns[c as usize] += 1;
-                P::Pawn
+    for (c, squares) in [(C::White, &rest[..15]), (C::Black, &rest[15..])] {
+        let mut kinds: Vec<P> = vec![P::Knight, P::Knight, P::Bishop, P::Bishop, P::Rook, P::Rook, P::Queen];
+        let inner = squares.iter().filter(|s| (1..=6).contains(&(**s / 8))).count();
+        let mut pawns = 0;
+        for _ in 0..8 {
+            if pawns < inner && g.below(5) < 3 {
+                pawns += 1;
+            } else {
+                kinds.push([P::Knight, P::Bishop, P::Rook, P::Queen][g.below(4) as usize]);
             }
-            3 => P::Knight,
-            4 => P::Bishop,
-            5 => P::Rook,
-            _ => P::Knight,
-        };
-        p.sq[s as usize] = Some((c, k));
+        }
+        // pawns go on squares off the back ranks, officers on the rest (shuffled above)
+        let mut left = pawns;
+        for &s in squares.iter() {
+            let back = s / 8 == 0 || s / 8 == 7;
+            if !back && left > 0 {
+                p.sq[s as usize] = Some((c, P::Pawn));
+                left -= 1;
+            } else {
+                let k = kinds.pop()?;
+                p.sq[s as usize] = Some((c, k));
+            }
+        }
     }
     // rights where king and rook happen to be at home
-    if parity == 0 {
-        if p.sq[0] == Some((C::White, P::Rook)) {
-            p.castle[1] = true;
-        } else if g.below(2) == 0 {
-            p.sq[0] = Some((C::White, P::Rook));
-            p.castle[1] = true;
-        }
-    } else if p.sq[56].map_or(false, |x| x.0 == C::Black) {
-        p.sq[56] = Some((C::Black, P::Rook));
+    if parity == 0 && p.sq[0] == Some((C::White, P::Rook)) {
+        p.castle[1] = true;
+    }
+    if parity == 1 && p.sq[56] == Some((C::Black, P::Rook)) {
         p.castle[3] = true;
     }
     p.turn = if g.below(2) == 0 { C::White } else { C::Black };
-    p.half = [9999u32, 1234, 100, 99, 1000][g.below(5) as usize];
+    p.half = [9999u32, 1234, 100, 99, 1000, 255, 256][g.below(7) as usize];
     p.full = [9999u32, 9998, 1000, 4321][g.below(4) as usize];
     if !p.unplayable_reasons().is_empty() {
         p.turn = p.turn.flip();
     }
-    if p.unplayable_reasons().is_empty() {
+    if p.plausible() {
         Some(p)
     } else {
         None
     }
+}
+
+/// the standard placement with every subset of the castling rights (knights and rooks can go
+/// out and come back), either side to move, several clock pairs
+fn standard_placement_family() -> Vec<Pos> {
+    let mut out = vec![];
+    for rights in 0..16u8 {
+        for turn in [C::White, C::Black] {
+            for (half, full) in [(0u32, 1u32), (8, 4), (8, 5), (99, 60), (100, 51), (1234, 999), (9999, 9999)] {
+                let mut p = Pos::start();
+                for i in 0..4 {
+                    p.castle[i] = rights & (1 << i) != 0;
+                }
+                p.turn = turn;
+                p.half = half;
+                p.full = full;
+                out.push(p);
+            }
+        }
+    }
+    out
 }
 
 pub fn replay(v: &Value) -> Result<(), String> {
